@@ -12,6 +12,9 @@ pub const T_STR: u8 = 1;
 pub const T_BOOL: u8 = 2;
 pub const T_I8: u8 = 3;
 pub const T_CHAR: u8 = 4;
+pub const T_U16: u8 = 5;
+/// bool given as a value (`Option<bool>` option), as opposed to a flag
+pub const T_BOOLV: u8 = 6;
 
 #[derive(Clone, Copy)]
 pub struct Field {
@@ -91,6 +94,33 @@ pub fn blank() -> Out {
 /// canonical decimal parser of u8 / i8 (what `str::parse` accepts): optional sign
 /// ('+' for both, '-' for signed), at least one digit, no other characters, in range
 pub fn parse_int<const L: usize>(raw: &[u8; L], off: usize, len: usize, signed: bool) -> Option<i32> {
+    parse_int_in::<L>(raw, off, len, signed, if signed { -128 } else { 0 }, if signed { 127 } else { 255 })
+}
+
+/// scalar value of a string that is exactly one well-formed scalar
+pub fn parse_char<const L: usize>(raw: &[u8; L], off: usize, len: usize) -> Option<i32> {
+    if len == 0 || len > 4 {
+        return None;
+    }
+    let (c, l) = crate::model::args::decode_at(raw, off);
+    if l == len {
+        Some(c as i32)
+    } else {
+        None
+    }
+}
+
+pub fn parse_bool<const L: usize>(raw: &[u8; L], off: usize, len: usize) -> Option<i32> {
+    if len == 4 && raw[off] == b't' && raw[off + 1] == b'r' && raw[off + 2] == b'u' && raw[off + 3] == b'e' {
+        Some(1)
+    } else if len == 5 && raw[off] == b'f' && raw[off + 1] == b'a' && raw[off + 2] == b'l' && raw[off + 3] == b's' && raw[off + 4] == b'e' {
+        Some(0)
+    } else {
+        None
+    }
+}
+
+pub fn parse_int_in<const L: usize>(raw: &[u8; L], off: usize, len: usize, signed: bool, min: i32, max: i32) -> Option<i32> {
     if len == 0 {
         return None;
     }
@@ -118,7 +148,7 @@ pub fn parse_int<const L: usize>(raw: &[u8; L], off: usize, len: usize, signed: 
                 return None;
             }
             v = v * 10 + (d - b'0') as i32;
-            if v > 1000 {
+            if v > 1_000_000 {
                 return None;
             }
         }
@@ -127,11 +157,7 @@ pub fn parse_int<const L: usize>(raw: &[u8; L], off: usize, len: usize, signed: 
     if neg {
         v = -v;
     }
-    if signed {
-        if v < -128 || v > 127 {
-            return None;
-        }
-    } else if v > 255 {
+    if v < min || v > max {
         return None;
     }
     Some(v)
@@ -158,7 +184,12 @@ fn set_value<const L: usize>(out: &mut Out, f: usize, fd: &Field, raw: &[u8; L],
             out.soff[f] = off;
             out.slen[f] = len;
         }
-        T_U8 | T_I8 => match parse_int::<L>(raw, off, len, fd.ty == T_I8) {
+        T_U8 | T_I8 | T_U16 | T_CHAR | T_BOOLV => match match fd.ty {
+            T_U16 => parse_int_in::<L>(raw, off, len, false, 0, 65535),
+            T_CHAR => parse_char::<L>(raw, off, len),
+            T_BOOLV => parse_bool::<L>(raw, off, len),
+            _ => parse_int::<L>(raw, off, len, fd.ty == T_I8),
+        } {
             Some(v) => out.ival[f] = v,
             None => {
                 out.kind = E_PARSE_VALUE;
